@@ -10,7 +10,7 @@ impl Scenario for C03 {
         "C03"
     }
     fn rule(&self) -> String {
-        "Seeded sessions: 1-3 threads x 1-3 channels with up to 4 consumers per thread (some never drained), gets, return listeners registered before the first publish. The broker generates a valid history: 0-6 deliveries per consumer, bodies 0..3P+1 bytes split arbitrarily (whole, 1-byte frames, random, tiny pieces), channels interleaved at frame boundaries by the output mux, the byte stream segmented (whole / MTU / <=64 B / 1 byte / random) with gaps, short reads and spurious wake-ups. Oracle: per consumer received == sent (all fields, order), each get == the content generated for that get, return listener == returns sent (prefix rule after a round trip). A hang while a lazy consumer holds messages is a violation. Non-trivial = >=1 content body arrived in >=2 body frames AND the mux interleaved another channel's frame or a segment boundary fell inside a frame (>=1 would-block read); distinct = schedule trace hash.".to_string()
+        "Seeded sessions: 1-3 threads x 1-3 channels with up to 4 consumers per thread (some never drained), gets, return listeners registered before the first publish. The broker generates a valid history: 0-6 deliveries per consumer, bodies 0..3P+1 bytes split arbitrarily (whole, 1-byte frames, random, tiny pieces), channels interleaved at frame boundaries by the output mux, the byte stream segmented (whole / MTU / <=64 B / 1 byte / random) with gaps, short reads and spurious wake-ups. Oracle: per consumer received == sent (all fields, order), each get == the content generated for that get, return listener == returns sent (prefix rule after a round trip). A hang while a lazy consumer holds messages is a violation. Non-trivial = >=1 content body arrived in >=2 body frames AND the mux interleaved another channel's frame or a segment boundary fell inside a frame (>=1 would-block read); distinct = schedule trace hash. Family 'stalled-writes': the peer stops reading for 20-60 simulated seconds while one thread keeps publishing (the client's outbound buffer stays non-empty and every write would block); during that time the broker sends deliveries to a consumer of another thread and channel, which blocks on its queue: it must have them long before the stall ends (outbound congestion delays no inbound message), and in the end everything is there once, in order.".to_string()
     }
     fn plan(&self, thorough: bool, seed: u64) -> Vec<CaseSpec> {
         let mut v = plan_random("C03", "inbound", seed, if thorough { 100_000 } else { 5_000 });
@@ -18,9 +18,13 @@ impl Scenario for C03 {
         for (i, s) in seeds_for("C03", "flood", seed, if thorough { 32 } else { 4 }).into_iter().enumerate() {
             v.push(CaseSpec { family: "flood".into(), seed: s, params: vec![i as i64], choices: None });
         }
+        v.extend(plan_random("C03", "stalled-writes", seed, if thorough { 8_000 } else { 600 }));
         v
     }
     fn run_case(&self, spec: &CaseSpec, text: bool) -> CaseReport {
+        if spec.family == "stalled-writes" {
+            return run_stalled_writes(spec, text);
+        }
         if spec.family == "flood" {
             return run_flood(spec, text);
         }
@@ -112,6 +116,7 @@ fn run_flood(spec: &CaseSpec, text: bool) -> CaseReport {
     let plan = SessionPlan { opts: ConnOpts::default(), tuning: Tuning::default(), threads, owner_ops: vec![], close: CloseKind::Close, join_before_close: true };
     let mut sched = amiquip_simrt::SchedCfg::default();
     sched.stick_pct = *pick(&mut cs, "stick", &[90u32, 50]);
+    crate::gen::gen_pct(&mut cs, &mut sched, 4);
     sched.step_cap = 60_000_000;
     sched.hang_after_ns = 600_000_000_000;
     let gen = Generated { plan, net, broker, sched, frame_max: 131072 };
@@ -138,6 +143,142 @@ fn run_flood(spec: &CaseSpec, text: bool) -> CaseReport {
     }
     inbound_oracle(&mut rep, &res.hist, &world.broker);
     rep.nontrivial = true;
+    rep.distinct = rep.trace_hash;
+    rep
+}
+
+
+/// Outbound congestion must not delay inbound messages: while the transport refuses every write (the peer has
+/// stopped reading) and a publisher keeps the outbound buffer full, deliveries for a consumer on another channel
+/// keep arriving and must reach it during the stall, not after it.
+fn run_stalled_writes(spec: &CaseSpec, text: bool) -> CaseReport {
+    use crate::broker::{Action, BrokerCfg, Trigger};
+    use crate::world::call_in;
+    use crate::client::*;
+    use crate::session::*;
+    const MS: u64 = 1_000_000;
+    let mut cs = spec.stream();
+    let stall_from = 3 * MS + cs.choose("stall_from_us", 2000) as u64 * 1000;
+    let stall_len = (20_000 + cs.choose("stall_ms", 40_000) as u64) * MS;
+    let n_batches = 1 + cs.choose("n_batches", 3);
+    let per_batch = 1 + cs.choose("per_batch", 3);
+    let mut broker = BrokerCfg::default();
+    broker.deliveries_min = 0;
+    broker.deliveries_max = 0;
+    broker.deliveries_for_queue = vec![("q.stalled".to_string(), 0)];
+    broker.body_max = *pick(&mut cs, "body_max", &[8usize, 3000, 10_000]);
+    broker.fixed_consumer_tags = true;
+    broker.seg_mode = pick(&mut cs, "seg", &[crate::broker::SegMode::Whole, crate::broker::SegMode::Mtu, crate::broker::SegMode::Random]).clone();
+    broker.s2c_lat_min_ns = 1_000;
+    broker.s2c_lat_max_ns = *pick(&mut cs, "s2c_lat", &[1_000u64, 200_000]);
+    let mut last_batch_at = 0u64;
+    for b in 0..n_batches {
+        // well inside the stall: at least 1 s after it began, at least 10 s before it ends
+        let at = stall_from + 1_000 * MS + (b as u64) * 2_000 * MS + cs.choose("batch_jitter_ms", 1500) as u64 * MS;
+        last_batch_at = last_batch_at.max(at);
+        broker.script.push((Trigger::AtTime(at), Action::DeliverMore { ch: 1, nth_consumer: 0, count: per_batch }));
+    }
+    let total = (n_batches * per_batch) as usize;
+    let mut net = crate::stream::NetCfg::default();
+    net.c2s_lat_min_ns = 1_000;
+    net.c2s_lat_max_ns = 1_000;
+    net.wr_short_permille = *pick(&mut cs, "wr_short", &[0u32, 300]);
+    let consume = Op::Consume { queue: "q.stalled".to_string(), no_local: false, no_ack: true, exclusive: false, args: 0, via_queue: false };
+    let consumer_ops = vec![(0usize, consume), (0, Op::Drain { slot: 0, max: Some(total), acks: vec![], via_consumer: false }), (0, Op::Cancel { slot: 0 }), (0, Op::Drain { slot: 0, max: None, acks: vec![], via_consumer: false })];
+    let n_pub = 30 + cs.choose("n_publishes", 200) as usize;
+    let plen = *pick(&mut cs, "publish_len", &[100usize, 3000, 9000]);
+    let mut pub_ops = Vec::new();
+    // the publisher starts shortly before the stall so that the buffer is non-empty when it begins
+    pub_ops.push((0usize, Op::Qos { size: 0, count: 1, global: false }));
+    pub_ops.push((0usize, Op::Gate(1)));
+    for i in 0..n_pub {
+        pub_ops.push((0usize, Op::Publish { exchange: "".into(), rk: format!("p{}", i), mandatory: false, immediate: false, props: 0, body_len: plen, via_exchange: false }));
+    }
+    let threads = vec![
+        ThreadPlan { chan_ids: vec![Some(1)], ops: consumer_ops, close_channels: true },
+        ThreadPlan { chan_ids: vec![Some(2)], ops: pub_ops, close_channels: true },
+    ];
+    let tuning = Tuning { bound: *pick(&mut cs, "bound", &[16usize, 1, 2]), high: *pick(&mut cs, "high", &[16usize << 20, 8000]), low: 0 };
+    let plan = SessionPlan { opts: ConnOpts { heartbeat: 0, ..ConnOpts::default() }, tuning, threads, owner_ops: vec![], close: CloseKind::Close, join_before_close: true };
+    let mut sched = amiquip_simrt::SchedCfg::default();
+    sched.stick_pct = *pick(&mut cs, "stick", &[90u32, 50, 0]);
+    crate::gen::gen_pct(&mut cs, &mut sched, 4);
+    sched.step_cap = 3_000_000;
+    sched.hang_after_ns = 600_000_000_000;
+    let gen = Generated { plan, net, broker, sched, frame_max: 131072 };
+    let (a, b) = (stall_from, stall_from + stall_len);
+    let gate_at = stall_from - 100_000 + cs.choose("gate_offset_us", 400) as u64 * 1000;
+    let (res, world) = run_generated(&gen, cs, text, move |_| {
+        call_in(a, |w| w.set_stall(true));
+        call_in(b, |w| w.set_stall(false));
+        // the publisher begins a moment before, at, or a moment after the peer stops reading
+        call_in(gate_at, |_| amiquip_simrt::gate_open(1));
+    });
+    let mut rep = CaseReport::default();
+    fill_common(&mut rep, &res, &world);
+    rep.sample = serde_json::json!({"family": "stalled-writes", "stall_from_ms": stall_from / MS, "stall_len_ms": stall_len / MS, "deliveries_during_stall": total, "publishes": n_pub, "publish_len": plen});
+    for p in &res.run.panics {
+        rep.violate("panic", format!("{}@{}", p.thread, p.location), format!("{} panicked: {}", p.thread, p.message));
+    }
+    if let Some((sig, detail)) = hang_sig(&res.run.outcome) {
+        rep.violate("hang", sig, format!("write stall of {} ms: somebody waits forever: {}", stall_len / MS, detail));
+        return rep;
+    }
+    if rep.inconclusive.is_some() {
+        return rep;
+    }
+    for o in &res.hist.ops {
+        if let OpResult::Err(e) = &o.result {
+            rep.violate("stall-disturbed", "call-failed", format!("{} failed with {}", crate::expect::short_op(&o.op), e));
+            return rep;
+        }
+    }
+    // the consumer's blocking read of all `total` deliveries
+    let got_at = res.hist.ops.iter().find_map(|o| match (&o.op, &o.result) {
+        (Op::Drain { max: Some(_), .. }, OpResult::Drained { msgs, .. }) if o.thread == 1 => Some((o.ret_ns, msgs.len())),
+        _ => None,
+    });
+    // anything published while the peer was not reading sat in the client's outbound buffer
+    let backlog = res.hist.ops.iter().any(|o| matches!(o.op, Op::Publish { .. }) && o.ret_ns > a && o.ret_ns < b);
+    match got_at {
+        Some((t, k)) if k == total => {
+            // every delivery was on the wire by last_batch_at + latency; allow a generous second for the client
+            let limit = last_batch_at + 1_000 * MS;
+            rep.count("c03.stalled_writes_checked", 1);
+            rep.count("c03.stalled_writes_with_backlog", backlog as u64);
+            if t > limit && t >= b {
+                rep.violate("inbound-delayed", "by-outbound-backlog", format!("the peer stopped reading from {} ms to {} ms while a thread kept publishing; {} deliveries for a consumer on another channel were sent by {} ms but the consumer had them only at {} ms, after the stall ended", a / MS, b / MS, total, last_batch_at / MS, t / MS));
+                return rep;
+            }
+            if t > limit {
+                rep.violate("inbound-delayed", "late", format!("{} deliveries sent by {} ms reached the consumer at {} ms (write stall from {} to {} ms)", total, last_batch_at / MS, t / MS, a / MS, b / MS));
+                return rep;
+            }
+        }
+        other => {
+            rep.count("c03.stalled_writes_unjudged", 1);
+            let _ = other;
+        }
+    }
+    // everything sent to the consumer is there, once, in order (both reads of its queue together)
+    let mut got: Vec<&GotMsg> = Vec::new();
+    for o in res.hist.ops.iter().filter(|o| o.thread == 1) {
+        if let OpResult::Drained { msgs, .. } = &o.result {
+            got.extend(msgs.iter());
+        }
+    }
+    let sent: Vec<&crate::broker::Message> = world.broker.sent.iter().filter_map(|s| if let crate::broker::SentKind::Deliver { ch: 1, msg, .. } = &s.kind { Some(msg) } else { None }).collect();
+    if got.len() != sent.len() {
+        rep.violate("delivery-count", if got.len() < sent.len() { "lost" } else { "extra" }, format!("write stall: broker sent {} deliveries, the consumer received {}", sent.len(), got.len()));
+        return rep;
+    }
+    for (i, (g, m)) in got.iter().zip(sent.iter()).enumerate() {
+        if !crate::oracles::msg_eq(g, m) {
+            rep.violate("delivery-content", "stalled-writes", format!("write stall: delivery #{} differs: received tag {} body {} bytes, sent tag {} body {} bytes", i, g.delivery_tag, g.body.len(), m.delivery_tag, m.body.len()));
+            return rep;
+        }
+    }
+    rep.nontrivial = backlog;
     rep.distinct = rep.trace_hash;
     rep
 }
